@@ -32,6 +32,7 @@ import (
 	"math/rand"
 	"os"
 	"path/filepath"
+	"runtime"
 	"runtime/debug"
 	"runtime/pprof"
 	"sort"
@@ -935,6 +936,36 @@ var baseDir string
 var runCounter int
 var curWorld *world
 
+// hangTimeout bounds one run (twenty times as much for the large cases); memLimit bounds the heap
+const hangTimeout = 30 * time.Second
+const memLimit = 1500 << 20
+
+var memExceeded = make(chan struct{})
+var hung bool
+
+func init() {
+	go func() {
+		var ms runtime.MemStats
+		for {
+			time.Sleep(50 * time.Millisecond)
+			runtime.ReadMemStats(&ms)
+			if ms.HeapAlloc > memLimit {
+				close(memExceeded)
+				return
+			}
+		}
+	}()
+}
+
+func emit(c *Config, fields []Sx) {
+	c.Emit(fields...)
+	if hung {
+		os.RemoveAll(baseDir)
+		c.Close()
+		os.Exit(0)
+	}
+}
+
 func planPrinter(args ...interface{}) {
 	w := curWorld
 	if w == nil || len(args) < 2 {
@@ -1041,23 +1072,42 @@ func runCase(in caseIn) []Sx {
 		w.curStep = step - 1
 	}
 	status := "ok"
-	_, panicked := Catch(func() {
-		if err := pipeline.Initialize(facts); err != nil {
-			status = "initfail"
-			return
-		}
-		debug.SetGCPercent(400) // Initialize lowers it when the hibernation distance is positive
-		if _, err := pipeline.Run(objs); err != nil {
-			status = "err"
-		}
-	})
-	if panicked {
-		status = "panic"
-	}
-	_, _ = Catch(func() { w.stepDone() })
-	// at the end every instance is read once more
+	done := make(chan struct{})
 	var final []Sx
-	_, _ = Catch(func() { final = w.snapshot(nil) })
+	go func() {
+		defer close(done)
+		_, panicked := Catch(func() {
+			if err := pipeline.Initialize(facts); err != nil {
+				status = "initfail"
+				return
+			}
+			debug.SetGCPercent(400) // Initialize lowers it when the hibernation distance is positive
+			if _, err := pipeline.Run(objs); err != nil {
+				status = "err"
+			}
+		})
+		if panicked {
+			status = "panic"
+		}
+		_, _ = Catch(func() { w.stepDone() })
+		// at the end every instance is read once more
+		_, _ = Catch(func() { final = w.snapshot(nil) })
+	}()
+	// items that share an arena between branches can loop forever or allocate without end: the watchdog gives up,
+	// the case is written with what was observed so far and the harness stops
+	limit := hangTimeout
+	if w.scale {
+		limit = 20 * hangTimeout
+	}
+	timer := time.NewTimer(limit)
+	select {
+	case <-done:
+		timer.Stop()
+	case <-timer.C:
+		status, hung = "hang", true
+	case <-memExceeded:
+		status, hung = "hang", true
+	}
 	curWorld = nil
 	if w.hibDir != "" {
 		os.RemoveAll(w.hibDir)
@@ -1431,12 +1481,12 @@ func directed(c *Config) {
 						g.chain(arms[0], 1)
 					}
 					in := caseIn{kind: "run-dir", size: 24, dist: d, opts: 1 + (r+k+a+d)%3, commits: g.commits}
-					c.Emit(runCase(in)...)
+					emit(c, runCase(in))
 					in.bd, in.hdisk, in.hth, in.people = true, (r+k+a)%3 != 0, []int{0, 0, 8}[(r+a+d)%3], (k+d)%2 == 0
 					if in.dist == 0 {
 						in.dist = 1
 					}
-					c.Emit(runCase(in)...)
+					emit(c, runCase(in))
 				}
 			}
 		}
@@ -1521,7 +1571,7 @@ func main() {
 			if len(in.commits) == 0 {
 				continue
 			}
-			c.Emit(runCase(in)...)
+			emit(c, runCase(in))
 		}
 		return
 	}
@@ -1529,15 +1579,15 @@ func main() {
 	if only != "scale" {
 		directed(c)
 		for i := c.Count(400, 25000); i > 0; i-- {
-			c.Emit(runCase(randomCase(c.Rng))...)
+			emit(c, runCase(randomCase(c.Rng)))
 		}
 	}
 	if c.Tier != "search" && only != "noscale" {
-		c.Emit(runCase(scaleCase(c.Rng, 1000+c.Rng.Intn(20), false))...)
-		c.Emit(runCase(scaleCase(c.Rng, 150+c.Rng.Intn(20), true))...)
+		emit(c, runCase(scaleCase(c.Rng, 1000+c.Rng.Intn(20), false)))
+		emit(c, runCase(scaleCase(c.Rng, 150+c.Rng.Intn(20), true)))
 		if c.Thorough() {
-			c.Emit(runCase(scaleCase(c.Rng, 10000+c.Rng.Intn(100), false))...)
-			c.Emit(runCase(scaleCase(c.Rng, 2000+c.Rng.Intn(100), true))...)
+			emit(c, runCase(scaleCase(c.Rng, 10000+c.Rng.Intn(100), false)))
+			emit(c, runCase(scaleCase(c.Rng, 2000+c.Rng.Intn(100), true)))
 		}
 	}
 }
